@@ -65,7 +65,7 @@ Definition klayer (bf : N) (k : key) : nat :=
   | KStr s => blob_layer bf s
   | KBytes b => blob_layer bf b
   | KBlob b => blob_layer bf b
-  | KUser _ l => l
+  | KUser _ l => Nat.min l 255   (* Layer returns a uint8 *)
   end.
 
 Definition unquote (bs : bytes) : option bytes :=
